@@ -5,6 +5,8 @@ or a type-checked structural rewrite.
 Every instance is recorded in the woven file (original text base64 in the marker) and
 listed in the evidence."""
 SHIMS = {
+    'char-to-string-d': dict(pattern=r'(?<!&)\bchar\.to_string\(\)', replace=r'char_to_string(char)', spec='r@ == [c]'),
+    'empty-to-string': dict(pattern=r'""\.to_string\(\)', replace=r'str_to_string("")', spec='r@ == s@'),
     # ByteParser::feed
     'use-utf8': dict(pattern=r'self\.parser\.parser_state\.lock\(\)\.unwrap\(\)\.use_utf8', replace=r'self.shim_use_utf8()', spec='r == use_utf8_of(parser) (abstract flag)'),
     'decode-chunk': dict(pattern=r'let mut decoded = String::with_capacity\(.*?\);\s*let \(_result, _read, _had_errors\) =\s*self\.utf8_decoder\s*\.decode_to_string\(data, &mut decoded, false\);\s*decoded',
